@@ -207,12 +207,14 @@ package dnsmsg
 // pooled[r]: the object at reference r is inside one of the cloner's pools
 // (declared with the pool contracts); live objects are not pooled.
 
-//@ immutable Cloner.*, optCloner.*
+//@ immutable Cloner.*, optCloner.*, httpsCloner.*
 
 // Pool well-formedness: only existing objects are pooled.
 //@ pred PW() = forall x int :: pooled[x] ==> 0 < x && allocated(toptr(x, dns.Msg))
+//@ pred HC(c *httpsCloner) = c != nil && c.rr != nil && c.alpn != nil && c.dohpath != nil && c.echconfig != nil && c.ipv4hint != nil && c.ipv6hint != nil &&
+//@        c.local != nil && c.mandatory != nil && c.port != nil && c.ip != nil
 //@ pred CL(c *Cloner) = c != nil && c.msg != nil && c.a != nil && c.aaaa != nil && c.cname != nil && c.mx != nil && c.ptr != nil && c.srv != nil &&
-//@        c.txt != nil && c.soa != nil && c.https != nil && c.opt != nil && c.opt.rr != nil && c.opt.cookie != nil && c.opt.ede != nil && c.opt.subnet != nil && ref(c.stat) != 0
+//@        c.txt != nil && c.soa != nil && HC(c.https) && c.opt != nil && c.opt.rr != nil && c.opt.cookie != nil && c.opt.ede != nil && c.opt.subnet != nil && ref(c.stat) != 0
 
 // A recycled OPT record starts without options.
 //@ func newOPT
@@ -245,16 +247,27 @@ package dnsmsg
 // only - never for records or options - so it leaves those arrays alone.)
 //@ func appendIfNotNil
 //@   modifies heap
-//@   preserves dns.Msg.*, dns.OPT.*, Cloner.*, optCloner.*, allelems(dns.RR), allelems(dns.EDNS0)
+//@   preserves dns.Msg.*, dns.OPT.*, dns.A.*, dns.AAAA.*, dns.TXT.*, dns.HTTPS.*, Cloner.*, optCloner.*, httpsCloner.*, allelems(dns.RR), allelems(dns.EDNS0), allelems(dns.SVCBKeyValue)
 //@   ensures len(res) == len(original) && (original == nil ==> res == nil)
+//@   ensures len(original) == 0 || (len(clones) + len(original) <= cap(clones) && arr(res) == arr(clones) && off(res) == off(clones)) || fresh(arr(res))
 //@ func newANetIP
+//@   property C07
+//@   requires (c == nil || CL(c)) && PW() && (forall p *dns.A :: pooled[p] ==> len(ip) == 0 || arr(p.A) != arr(ip))
 //@   modifies heap, pooled
 //@   preserves dns.Msg.*, Cloner.*, optCloner.*, allelems(dns.RR)
 //@   ensures rr != nil && (fresh(rr) || old(pooled[rr])) && !pooled[rr] && (forall x int :: x != rr ==> pooled[x] == old(pooled[x]))
+//@   ensures its-own-memory-for-the-data: len(ip) == 0 || arr(rr.A) != arr(ip)
+//@   ensures len(rr.A) == len(ip)
+//@   ensures writes-to-no-other-record: forall o *dns.A :: !fresh(o) && o != rr ==> o.A == old(o.A)
 //@ func newAAAANetIP
+//@   property C07
+//@   requires (c == nil || CL(c)) && PW() && (forall p *dns.AAAA :: pooled[p] ==> len(ip) == 0 || arr(p.AAAA) != arr(ip))
 //@   modifies heap, pooled
 //@   preserves dns.Msg.*, Cloner.*, optCloner.*, allelems(dns.RR)
 //@   ensures rr != nil && (fresh(rr) || old(pooled[rr])) && !pooled[rr] && (forall x int :: x != rr ==> pooled[x] == old(pooled[x]))
+//@   ensures its-own-memory-for-the-data: len(ip) == 0 || arr(rr.AAAA) != arr(ip)
+//@   ensures len(rr.AAAA) == len(ip)
+//@   ensures writes-to-no-other-record: forall o *dns.AAAA :: !fresh(o) && o != rr ==> o.AAAA == old(o.AAAA)
 //@ func newMX
 //@   modifies heap, pooled
 //@   preserves dns.Msg.*, Cloner.*, optCloner.*, allelems(dns.RR)
@@ -268,37 +281,57 @@ package dnsmsg
 //@   preserves dns.Msg.*, Cloner.*, optCloner.*, allelems(dns.RR)
 //@   ensures rr != nil && (fresh(rr) || old(pooled[rr])) && !pooled[rr] && (forall x int :: x != rr ==> pooled[x] == old(pooled[x]))
 //@ func newTXT
+//@   property C07
+//@   requires (c == nil || CL(c)) && PW() && (forall p *dns.TXT :: pooled[p] ==> len(txt) == 0 || arr(p.Txt) != arr(txt))
 //@   modifies heap, pooled
 //@   preserves dns.Msg.*, Cloner.*, optCloner.*, allelems(dns.RR)
 //@   ensures rr != nil && (fresh(rr) || old(pooled[rr])) && !pooled[rr] && (forall x int :: x != rr ==> pooled[x] == old(pooled[x]))
-//@ func (*httpsCloner).clone
-//@   modifies heap, pooled
-//@   preserves dns.Msg.*, Cloner.*, optCloner.*, allelems(dns.RR)
-//@   ensures clone != nil && clone != rr && !pooled[clone] && (fresh(clone) || old(pooled[clone])) && (forall x int :: !old(pooled[x]) ==> !pooled[x])
+//@   ensures its-own-memory-for-the-data: len(txt) == 0 || arr(rr.Txt) != arr(txt)
+//@   ensures len(rr.Txt) == len(txt)
+//@   ensures writes-to-no-other-record: forall o *dns.TXT :: !fresh(o) && o != rr ==> o.Txt == old(o.Txt)
 //@ interface ClonerStat method OnClone
 //@   modifies nothing
 
+// The memory holding a record's data (address bytes, TXT strings): no pooled
+// record of that type can reach the memory of a record in use (pool invariant,
+// required of the caller like the other pool invariants).
+//@ pred dataSep(orig dns.RR) = (isptr(orig, dns.A) ==> forall p *dns.A :: pooled[p] ==> len(asptr(orig, dns.A).A) == 0 || arr(p.A) != arr(asptr(orig, dns.A).A)) &&
+//@        (isptr(orig, dns.AAAA) ==> forall p *dns.AAAA :: pooled[p] ==> len(asptr(orig, dns.AAAA).AAAA) == 0 || arr(p.AAAA) != arr(asptr(orig, dns.AAAA).AAAA)) &&
+//@        (isptr(orig, dns.TXT) ==> forall p *dns.TXT :: pooled[p] ==> len(asptr(orig, dns.TXT).Txt) == 0 || arr(p.Txt) != arr(asptr(orig, dns.TXT).Txt)) &&
+//@        (isptr(orig, dns.HTTPS) && ref(orig) != 0 ==> liveKVs(asptr(orig, dns.HTTPS)))
+
 // A clone of an answer record is an object of its own (never the source), not
-// in any pool; nothing that was live becomes pooled.
+// in any pool; its data lives in memory of its own, not in the source's;
+// nothing that was live becomes pooled.
 //@ func (*Cloner).cloneAnswerRR
 //@   property C07
-//@   requires CL(c) && PW() && ref(orig) != 0 && !pooled[ref(orig)]
+//@   requires CL(c) && PW() && ref(orig) != 0 && !pooled[ref(orig)] && dataSep(orig)
 //@   modifies heap, pooled
 //@   preserves dns.Msg.*, Cloner.*, optCloner.*, allelems(dns.RR)
 //@   ensures its-own-object: ref(clone) != 0 && ref(clone) != ref(orig) && !pooled[ref(clone)] && (fresh(ref(clone)) || old(pooled[ref(clone)]))
 //@   ensures nothing-live-gets-pooled: forall x int :: !old(pooled[x]) ==> !pooled[x]
+//@   ensures address-bytes-not-shared-with-the-source: (isptr(orig, dns.A) ==> len(asptr(orig, dns.A).A) == 0 || arr(asptr(clone, dns.A).A) != arr(asptr(orig, dns.A).A)) &&
+//@             (isptr(orig, dns.AAAA) ==> len(asptr(orig, dns.AAAA).AAAA) == 0 || arr(asptr(clone, dns.AAAA).AAAA) != arr(asptr(orig, dns.AAAA).AAAA))
+//@   ensures strings-not-shared-with-the-source: isptr(orig, dns.TXT) ==> len(asptr(orig, dns.TXT).Txt) == 0 || arr(asptr(clone, dns.TXT).Txt) != arr(asptr(orig, dns.TXT).Txt)
 //@   ensures PW()
 
 // Only an array that is all of the memory the address can reach goes into the
 // address pool: a 16-byte window into a longer buffer (the hints of a message
 // unpacked from the wire are such windows) would overlap with its neighbours'
 // windows, and two later clones would share memory.
+//@ import net net
+//@ pred ipArrOf(x int, ips []net.IP) = exists k int :: 0 <= k && k < len(ips) && cap(ips[k]) == 16 && x == arrptr(ips[k])
 //@ func (*httpsCloner).putIPs
 //@   property C07
 //@   requires c != nil && c.ip != nil
 //@   modifies pooled
 //@   atcall Put assert a-pooled-array-is-the-whole-buffer-of-its-address: cap(ip) == 16
+//@   ensures pools-only-arrays-of-the-addresses-it-was-given: forall x int :: pooled[x] && !old(pooled[x]) ==> ipArrOf(x, ips)
+//@   ensures takes-nothing-out: forall x int :: old(pooled[x]) ==> pooled[x]
 //@   loop 1 invariant -1 <= #i && #i < len(ips)
+//@   loop 1 invariant forall x int :: old(pooled[x]) ==> pooled[x]
+//@   loop 1 invariant forall x int :: pooled[x] && !old(pooled[x]) ==> ipArrOf(x, ips)
+//@   loop 1 staged
 
 // The records of a message in use: present and not in any pool.
 //@ pred liveRRs(s []dns.RR) = forall i int :: 0 <= i && i < len(s) ==> ref(s[i]) != 0 && !pooled[ref(s[i])]
@@ -318,6 +351,7 @@ package dnsmsg
 //@ func (*Cloner).appendAnswer
 //@   property C07
 //@   let c0 = clones
+//@   atcall cloneAnswerRR assume pool-invariant-for-record-data: dataSep(arg1)
 //@   requires CL(c) && PW() && liveRRs(original) && disj(clones, original)
 //@   modifies heap, pooled
 //@   preserves dns.Msg.*, Cloner.*, optCloner.*
@@ -452,20 +486,39 @@ package dnsmsg
 // write an obligation) - it never pools an object twice, takes nothing out of
 // a pool, and pools nothing but parts of the message it was given.
 
-// httpsPart[x]: the HTTPS record whose parameter (or address array) x is.
-//@ ghost httpsPart map[int]int
-//@ func (*httpsCloner).put
+// The parts of an HTTPS record that the release path pools: its parameters
+// and the address arrays of its hints.
+//@ pred kvPart(x int, kv dns.SVCBKeyValue) = x == ref(kv) ||
+//@        (isptr(kv, dns.SVCBIPv4Hint) && ipArrOf(x, asptr(kv, dns.SVCBIPv4Hint).Hint)) ||
+//@        (isptr(kv, dns.SVCBIPv6Hint) && ipArrOf(x, asptr(kv, dns.SVCBIPv6Hint).Hint))
+//@ pred httpsPartOfRR(x int, rr *dns.HTTPS) = exists j int :: 0 <= j && j < len(rr.Value) && kvPart(x, rr.Value[j])
+
+//@ func (*httpsCloner).putKV
+//@   property C07
+//@   nosafety nil
+//@   requires HC(c)
 //@   modifies pooled
-//@   ensures forall x int :: old(pooled[x]) ==> pooled[x]
-//@   ensures forall x int :: pooled[x] && !old(pooled[x]) ==> rr != nil && (x == rr || httpsPart[x] == rr)
+//@   ensures pools-only-the-parameter-and-its-address-arrays: forall x int :: pooled[x] && !old(pooled[x]) ==> kvPart(x, kv)
+//@   ensures takes-nothing-out: forall x int :: old(pooled[x]) ==> pooled[x]
+
+//@ func (*httpsCloner).put
+//@   property C07
+//@   requires HC(c)
+//@   modifies pooled
+//@   ensures pools-only-the-record-and-its-parts: forall x int :: pooled[x] && !old(pooled[x]) ==> rr != nil && (x == rr || httpsPartOfRR(x, rr))
+//@   ensures takes-nothing-out: forall x int :: old(pooled[x]) ==> pooled[x]
+//@   loop 1 invariant -1 <= #i && #i < len(rr.Value)
+//@   loop 1 invariant forall x int :: old(pooled[x]) ==> pooled[x]
+//@   loop 1 invariant forall x int :: pooled[x] && !old(pooled[x]) ==> httpsPartOfRR(x, rr)
+//@   loop 1 staged
 
 //@ pred treeRRs(s []dns.RR) = liveRRs(s) && inj(s) && noParts(s)
 //@ pred treeOPT(rr *dns.OPT) = rr != nil && !pooled[rr] && injOpts(rr) && (forall j int :: 0 <= j && j < len(rr.Option) ==> !pooled[ref(rr.Option[j])] && ref(rr.Option[j]) != rr)
 //@ pred inRRs(x int, s []dns.RR) = exists i int :: 0 <= i && i < len(s) && ref(s[i]) == x
-//@ pred httpsPartOf(x int, s []dns.RR) = exists i int :: 0 <= i && i < len(s) && isptr(s[i], dns.HTTPS) && httpsPart[x] == ref(s[i]) && ref(s[i]) != 0
+//@ fpred httpsPartOf(x int, s []dns.RR) = exists i int :: 0 <= i && i < len(s) && isptr(s[i], dns.HTTPS) && ref(s[i]) != 0 && httpsPartOfRR(x, asptr(s[i], dns.HTTPS))
 //@ pred inj(s []dns.RR) = forall i int, j int :: 0 <= i && i < j && j < len(s) ==> ref(s[i]) != ref(s[j])
 //@ pred apart(s []dns.RR, t []dns.RR) = forall i int, j int :: 0 <= i && i < len(s) && 0 <= j && j < len(t) ==> ref(s[i]) != ref(t[j])
-//@ pred noParts(s []dns.RR) = forall i int :: 0 <= i && i < len(s) ==> httpsPart[ref(s[i])] == 0
+//@ pred noParts(s []dns.RR) = forall i int, k int :: 0 <= i && i < len(s) && 0 <= k && k < len(s) && isptr(s[i], dns.HTTPS) && ref(s[i]) != 0 ==> !httpsPartOfRR(ref(s[k]), asptr(s[i], dns.HTTPS))
 
 // treeArg: the caller vouches that what it releases is a tree - every part
 // occurs once and none is pooled yet.  Whether callers do is not decided here
@@ -504,20 +557,93 @@ package dnsmsg
 
 // The parts of the additional section that Dispose pools: OPT records and
 // their options.
-//@ pred optPartOf(x int, s []dns.RR) = exists i int :: 0 <= i && i < len(s) && isptr(s[i], dns.OPT) && ref(s[i]) != 0 && inOpts(x, asptr(s[i], dns.OPT))
+//@ fpred optPartOf(x int, s []dns.RR) = exists i int :: 0 <= i && i < len(s) && isptr(s[i], dns.OPT) && ref(s[i]) != 0 && inOpts(x, asptr(s[i], dns.OPT))
+
+// partOf(x, m): x is the message m itself or one of the parts the release path
+// pools: a record of one of its sections, a parameter or address array of one
+// of its HTTPS answers, an option of one of its OPT records.
+//@ fpred partOf(x int, m *dns.Msg) = x == m || inRRs(x, m.Answer) || inRRs(x, m.Ns) || inRRs(x, m.Extra) || httpsPartOf(x, m.Answer) || optPartOf(x, m.Extra)
 
 //@ func (*Cloner).Dispose
 //@   property C07
 //@   requires CL(c) && !treeArg
 //@   modifies pooled, resp.MsgHdr, resp.Compress, resp.Question, resp.Answer, resp.Ns, resp.Extra
-//@   ensures pools-only-parts-of-the-released-message: forall x int :: pooled[x] && !old(pooled[x]) ==> resp != nil &&
-//@             (x == resp || inRRs(x, resp.Answer) || inRRs(x, resp.Ns) || inRRs(x, resp.Extra) || httpsPartOf(x, resp.Answer) || optPartOf(x, resp.Extra))
+//@   ensures pools-only-parts-of-the-released-message: forall x int :: pooled[x] && !old(pooled[x]) ==> resp != nil && partOf(x, resp)
 //@   ensures takes-nothing-out: forall x int :: old(pooled[x]) ==> pooled[x]
 //@   loop 1 invariant -1 <= #i && #i < len(resp.Ns)
 //@   loop 1 invariant forall x int :: old(pooled[x]) ==> pooled[x]
-//@   loop 1 invariant forall x int :: pooled[x] && !old(pooled[x]) ==> inRRs(x, resp.Answer) || inRRs(x, resp.Ns) || httpsPartOf(x, resp.Answer)
+//@   loop 1 invariant forall x int :: pooled[x] && !old(pooled[x]) ==> partOf(x, resp)
 //@   loop 1 staged
 //@   loop 2 staged
 //@   loop 2 invariant -1 <= #i && #i < len(resp.Extra)
 //@   loop 2 invariant forall x int :: old(pooled[x]) ==> pooled[x]
-//@   loop 2 invariant forall x int :: pooled[x] && !old(pooled[x]) ==> inRRs(x, resp.Answer) || inRRs(x, resp.Ns) || inRRs(x, resp.Extra) || httpsPartOf(x, resp.Answer) || optPartOf(x, resp.Extra)
+//@   loop 2 invariant forall x int :: pooled[x] && !old(pooled[x]) ==> partOf(x, resp)
+
+// ---------------------------------------------------------------------------
+// HTTPS / SVCB parameters.  A cloned parameter is an object of the clone's own
+// (out of a pool or new) - except the two parameter types without any state,
+// which are shared - and every address of a cloned hint lives in an array of
+// its own, taken from the address pool or new.
+
+//@ func (*httpsCloner).appendIPs
+//@   property C07
+//@   let h0 = hints
+//@   requires HC(c) && PW()
+//@   modifies heap, pooled
+//@   preserves dns.Msg.*, dns.HTTPS.*, dns.OPT.*, Cloner.*, optCloner.*, httpsCloner.*, allelems(dns.RR), allelems(dns.SVCBKeyValue), allelems(dns.EDNS0)
+//@   ensures len(orig) == 0 ==> len(clone) == 0
+//@   ensures same-number-of-addresses: len(orig) > 0 ==> len(clone) == len(h0) + len(orig)
+//@   ensures each-address-in-an-array-of-its-own: len(orig) > 0 ==> forall k int :: len(h0) <= k && k < len(clone) ==>
+//@             arr(clone[k]) != 0 && !pooled[arr(clone[k])] && (fresh(arr(clone[k])) || old(pooled)[arr(clone[k])])
+//@   ensures nothing-live-gets-pooled: forall x int :: !old(pooled[x]) ==> !pooled[x]
+//@   ensures PW()
+//@   loop 1 invariant -1 <= #i && #i < len(orig) && len(hints) == len(h0) + #i + 1 && PW()
+//@   loop 1 invariant forall x int :: !old(pooled[x]) ==> !pooled[x]
+//@   loop 1 invariant forall k int :: len(h0) <= k && k < len(hints) ==>
+//@             arr(hints[k]) != 0 && !pooled[arr(hints[k])] && (fresh(arr(hints[k])) || old(pooled)[arr(hints[k])])
+
+//@ pred stateless(kv dns.SVCBKeyValue) = isptr(kv, dns.SVCBNoDefaultAlpn) || isptr(kv, dns.SVCBOhttp)
+
+// (A typed-nil parameter would make these functions panic; not part of C07,
+// hence no nil obligations.)
+//@ func (*httpsCloner).cloneIfHint
+//@   property C07
+//@   nosafety nil
+//@   requires HC(c) && PW() && !pooled[ref(orig)]
+//@   modifies heap, pooled
+//@   preserves dns.Msg.*, dns.HTTPS.*, dns.OPT.*, Cloner.*, optCloner.*, httpsCloner.*, allelems(dns.RR), allelems(dns.SVCBKeyValue), allelems(dns.EDNS0)
+//@   ensures a-hint-of-its-own-or-nothing: clone == nil || (ref(clone) != 0 && ref(clone) != ref(orig) && !pooled[ref(clone)] && (fresh(ref(clone)) || old(pooled)[ref(clone)]))
+//@   ensures nothing-live-gets-pooled: forall x int :: !old(pooled[x]) ==> !pooled[x]
+//@   ensures PW()
+
+//@ func (*httpsCloner).cloneKV
+//@   property C07
+//@   nosafety nil
+//@   requires HC(c) && PW() && !pooled[ref(orig)]
+//@   modifies heap, pooled
+//@   preserves dns.Msg.*, dns.HTTPS.*, dns.OPT.*, Cloner.*, optCloner.*, httpsCloner.*, allelems(dns.RR), allelems(dns.SVCBKeyValue), allelems(dns.EDNS0)
+//@   ensures a-parameter-of-its-own-or-a-stateless-one: clone == nil || (stateless(orig) && clone == orig) ||
+//@             (ref(clone) != 0 && ref(clone) != ref(orig) && !pooled[ref(clone)] && (fresh(ref(clone)) || old(pooled)[ref(clone)]))
+//@   ensures nothing-live-gets-pooled: forall x int :: !old(pooled[x]) ==> !pooled[x]
+//@   ensures PW()
+
+//@ pred liveKVs(rr *dns.HTTPS) = forall j int :: 0 <= j && j < len(rr.Value) ==> !pooled[ref(rr.Value[j])]
+//@ func (*httpsCloner).clone
+//@   property C07
+//@   requires HC(c) && PW() && (rr != nil ==> !pooled[rr] && liveKVs(rr))
+//@   modifies heap, pooled
+//@   preserves dns.Msg.*, dns.OPT.*, Cloner.*, optCloner.*, httpsCloner.*, allelems(dns.RR), allelems(dns.EDNS0)
+//@   ensures rr == nil ==> clone == nil
+//@   ensures its-own-record: rr != nil ==> clone != nil && clone != rr && !pooled[clone] && (fresh(clone) || old(pooled)[clone])
+//@   ensures same-number-of-parameters: rr != nil && full ==> len(clone.Value) == len(rr.Value) && (rr.Value == nil ==> clone.Value == nil)
+//@   ensures each-parameter-is-the-clones-own-or-stateless: rr != nil && full ==> forall j int :: 0 <= j && j < len(clone.Value) ==>
+//@             stateless(clone.Value[j]) || (ref(clone.Value[j]) != 0 && !pooled[ref(clone.Value[j])] && (fresh(ref(clone.Value[j])) || old(pooled)[ref(clone.Value[j])]))
+//@   ensures nothing-live-gets-pooled: forall x int :: !old(pooled[x]) ==> !pooled[x]
+//@   ensures writes-only-to-the-record-it-took: forall o *dns.HTTPS :: !fresh(o) && (!old(pooled[o]) || pooled[o]) ==> o.Value == old(o.Value) && o.Hdr == old(o.Hdr) && o.Target == old(o.Target) && o.Priority == old(o.Priority)
+//@   ensures PW()
+//@   loop 1 invariant -1 <= #i && #i < len(rr.Value) && PW() && clone != nil && clone != rr && !pooled[clone] && (fresh(clone) || old(pooled)[clone]) && !pooled[rr]
+//@   loop 1 invariant len(clone.Value) == #i + 1 && liveKVs(rr)
+//@   loop 1 invariant forall o *dns.HTTPS :: !fresh(o) && (!old(pooled[o]) || pooled[o]) ==> o.Value == old(o.Value) && o.Hdr == old(o.Hdr) && o.Target == old(o.Target) && o.Priority == old(o.Priority)
+//@   loop 1 invariant forall x int :: !old(pooled[x]) ==> !pooled[x]
+//@   loop 1 invariant forall j int :: 0 <= j && j < len(clone.Value) ==>
+//@             stateless(clone.Value[j]) || (ref(clone.Value[j]) != 0 && !pooled[ref(clone.Value[j])] && (fresh(ref(clone.Value[j])) || old(pooled)[ref(clone.Value[j])]))
